@@ -75,11 +75,18 @@ FragOpen(m) ==
   \o <<Seg(1, <<m + 1>>), Seg(m + 1, <<0>>)>>
 FragBombs == {[ty |-> "Q-extal", syn |-> "UPER", kind |-> "fragmented-open-type", segs |-> FragOpen(m)] : m \in {1, 4, 6}}
 
+\* an UNKNOWN extension addition of Q-extal (BER), skipped by the decoder: a constructed indefinite-length [99] that nests
+\* d more of itself (8.1.3.6: nested indefinite lengths), complete or cut off before the end-of-contents octets
+DeepUnknown(d, complete) == <<Seg(1, <<48, 128, 2, 1, 0>>), Seg(d, <<191, 99, 128>>)>>
+                            \o (IF complete THEN <<Seg(d, <<0, 0>>), Seg(1, <<0, 0>>)>> ELSE <<>>)
+
 VARIABLES scen, l
 dvars == <<scen, l>>
 Scenarios ==
   UNION {{[ty |-> ty, syn |-> s, kind |-> "deep", depth |-> d, limit |-> lim, segs |-> Deep(s, ty, d)] : s \in DeepSyns(ty), d \in Depths, lim \in Limits} : ty \in DeepTypes}
   \cup {[ty |-> "O-unc", syn |-> "DER", kind |-> "deep-string", depth |-> d, limit |-> lim, segs |-> DeepString(d)] : d \in Depths, lim \in Limits}
+  \cup {[ty |-> "Q-extal", syn |-> "DER", kind |-> "deep-unknown-extension", depth |-> d, limit |-> lim, segs |-> DeepUnknown(d, c)] :
+          d \in Depths \cup {1000000}, lim \in Limits, c \in BOOLEAN}
   \cup {[b EXCEPT !.kind = b.kind] @@ [depth |-> 0, limit |-> 0] : b \in Bombs \cup FragBombs}
 DInit == scen \in Scenarios /\ l = 0
 DNext == FALSE /\ UNCHANGED dvars
